@@ -251,6 +251,28 @@ pub open spec fn approvals_sound(w: World, m: NModel) -> bool {
     &&& forall|id: u32| cur_owner(w, id).is_none() ==> (#[trigger] cur_approved(w, id)).is_none()
 }
 
+pub proof fn lemma_agrees_sound(w: World, m: NModel)
+    requires agrees(w, m),
+    ensures approvals_sound(w, m),
+{
+    assert forall|id: u32| (#[trigger] cur_approved(w, id)).is_some() implies
+            m.grant.contains_key(id) && m.grant[id].approved == cur_approved(w, id).unwrap()
+            && Some(m.grant[id].owner) == cur_owner(w, id) && w.ledger_seq <= m.grant[id].live by {
+        assert(appr_raw(w, id).is_some());
+        assert(cur_owner(w, id) == mget(m.owner, id));
+    }
+    assert forall|o: Address, s: Address| #[trigger] is_operator(w, o, s) implies m.oper.contains_key((o, s)) && w.ledger_seq <= m.oper[(o, s)] by {
+        assert(oper_raw(w, o, s).is_some());
+    }
+    assert forall|id: u32| cur_owner(w, id).is_none() implies (#[trigger] cur_approved(w, id)).is_none() by {
+        if cur_approved(w, id).is_some() {
+            assert(appr_raw(w, id).is_some());
+            assert(m.grant.contains_key(id));
+            assert(cur_owner(w, id) == mget(m.owner, id));
+        }
+    }
+}
+
 pub proof fn lemma_history(w0: World, steps: Seq<NStep>)
     requires genesis(w0), valid(w0, steps),
     ensures
@@ -274,24 +296,7 @@ pub proof fn lemma_history(w0: World, steps: Seq<NStep>)
         lemma_history(w0, pre);
         lemma_step(run(w0, pre), steps.last(), model(pre));
     }
-    let w = run(w0, steps);
-    let m = model(steps);
-    assert forall|id: u32| (#[trigger] cur_approved(w, id)).is_some() implies
-            m.grant.contains_key(id) && m.grant[id].approved == cur_approved(w, id).unwrap()
-            && Some(m.grant[id].owner) == cur_owner(w, id) && w.ledger_seq <= m.grant[id].live by {
-        assert(appr_raw(w, id).is_some());
-        assert(cur_owner(w, id) == mget(m.owner, id));
-    }
-    assert forall|o: Address, s: Address| #[trigger] is_operator(w, o, s) implies m.oper.contains_key((o, s)) && w.ledger_seq <= m.oper[(o, s)] by {
-        assert(oper_raw(w, o, s).is_some());
-    }
-    assert forall|id: u32| cur_owner(w, id).is_none() implies (#[trigger] cur_approved(w, id)).is_none() by {
-        if cur_approved(w, id).is_some() {
-            assert(appr_raw(w, id).is_some());
-            assert(m.grant.contains_key(id));
-            assert(cur_owner(w, id) == mget(m.owner, id));
-        }
-    }
+    lemma_agrees_sound(run(w0, steps), model(steps));
 }
 
 // ---- sequential minting alone never needs the freshness assumption ----
